@@ -403,7 +403,27 @@ func c03Random(r *Rand, mode int, org int64, withJumps bool) *ProgCase {
 			}
 		}
 	}
-	p.Stmts = append(p.Stmts, PStmt{K: "movl", Reg: probeReg(mode, r.Intn(8)), Label: fmt.Sprintf("L%d", nl-1)})
+	if r.Chance(1, 3) {
+		// a label on the very first line (address = origin, 0 without ORG), referenced from data and code
+		top := fmt.Sprintf("L%d", nl)
+		nl++
+		p.Stmts = append(p.Stmts, PStmt{K: "label", Label: top})
+		refs := []PStmt{
+			{K: "data", W: lw, Items: []DItem{{Kind: "label", Label: top, Text: top}, numItem(int64(r.Intn(200)), 0)}},
+			{K: "movl", Reg: probeReg(mode, r.Intn(8)), Label: top},
+			{K: "data", W: 4, Items: []DItem{{Kind: "label", Label: top, Text: top}}},
+		}
+		k := r.Intn(len(out))
+		for out[k].K == "resbto" || (k+1 < len(out) && out[k+1].K == "resbto") {
+			k = r.Intn(len(out))
+		}
+		rest := append([]PStmt{}, out[k:]...)
+		out = append(append(out[:k:k], Pick(r, refs)), rest...)
+		if out[len(out)-1].K != "label" {
+			panic("final label lost")
+		}
+	}
+	p.Stmts = append(p.Stmts, PStmt{K: "movl", Reg: probeReg(mode, r.Intn(8)), Label: fmt.Sprintf("L%d", nl-1-boolInt(p.Stmts != nil && len(p.Stmts) > 0 && p.Stmts[len(p.Stmts)-1].K == "label"))})
 	p.Stmts = append(p.Stmts, out...)
 	return &ProgCase{P: p, Cell_: fmt.Sprintf("rand m%d org=%d n=%d", mode, org, len(out)/8)}
 }
